@@ -1245,6 +1245,22 @@ pub fn analyse(m: &Mig, r: &MigRun) -> Result<Facts, Fail> {
             let by_packet = !q_here.is_empty();
             let by_timeout = timeout_here && (c.before.prev == Some(c.after.remote) || valid_before(&c.after.remote, c.t));
             if !by_packet && by_timeout {
+                // the validation that just failed was given its time: at least three probe timeouts of the
+                // new path (whose RTT estimate starts afresh after a change of IP address)
+                if let Some(cin) = r.changes.iter().rev().find(|x| x.t < c.t && x.after.remote == c.before.remote && x.before.remote != x.after.remote) {
+                    // (the old path's probe timeout is only known from an earlier sample; the new path's is read
+                    // right after the move, so that is what the bound uses)
+                    let need = 3 * cin.after.pto;
+                    let given = c.t - cin.t;
+                    // (the sample is taken at the end of the step in which the move happened and may differ somewhat from
+                    // the value the timer was armed with: only a deadline of less than half is an alarm)
+                    if !c.before.validated && given * 2 < need && !r.changes.iter().any(|x| x.t > cin.t && x.t < c.t) {
+                        return Err(fail(
+                            "c15/path-validation-abandoned-early",
+                            format!("t={}: the server gave up validating {} after {given} us; it had moved there at t={} with a probe timeout of {} us on the new path (3 x = {need} us; {} us on the old one)", c.t, c.before.remote, cin.t, cin.after.pto, cin.before.pto),
+                        ));
+                    }
+                }
                 if let Some(lv) = last_valid {
                     if lv != c.after.remote {
                         return Err(fail(
